@@ -122,6 +122,11 @@ def c14_rename(doc, k, nlen):
     SX.check(soup.count(new) == n_new0 + 1, 'C14:rename-search-new', det)
     f = [n for n in soup.find_all(new) if n.expr is e]
     SX.check(len(f) == 1, 'C14:rename-target-not-found-by-new-name', det)
+    if isinstance(e, TexNamedEnv):
+        fb = [n for n in soup.find_all('\\begin{' + new + '}') if n.expr is e]
+        SX.check(len(fb) == 1, 'C14:rename-target-not-found-by-new-opening', det)
+        fo = [n for n in soup.find_all('\\begin{' + old + '}') if n.expr is e]
+        SX.check(len(fo) == 0, 'C14:rename-target-still-found-by-old-opening', det)
     if old != 'item':        # (a renamed \\item keeps its body in the tree; re-read, the body becomes siblings: name class changed)
         reparse_same(soup, 'C14:rename', det)
     return ('ok', SX.raw(str(soup)))
@@ -209,6 +214,17 @@ def c14_args(doc, k, mode):
         a = node.args
         a.reverse()
         node.args = a            # the node's own list object, mutated and assigned back
+    elif mode == 'swap-items':
+        if n < 2:
+            return ('skip',)
+        order = [1, 0] + list(range(2, n))
+        node.args[0], node.args[1] = node.args[1], node.args[0]
+    elif mode == 'del-item':
+        order = list(range(1, n))
+        del node.args[0]
+    elif mode == 'empty-slice':
+        order = []
+        node.args = node.args[:0]
     elif mode == 'assign-new':
         order = None
         node.args = TexArgs(['{n}', '[m]'])
